@@ -751,6 +751,155 @@ def check_histories(out, spec, fmt, opts, rng, stats, scratch):
                      'different bytes: ' + _firstdiff(b1, b2 if b1 != b2 else bo), extra)
 
 
+# ----------------------------------------------------------------------------
+# scenario families with their own PRNG streams (implementation only; replay = common.scenario_replay)
+
+def _env(rset, resources):
+    from pyecore.resources import global_registry
+    return {'resource uris': [r.uri.plain for r in resources],
+            'rset.resources': [(k, next((i for i, r in enumerate(resources) if r is v), 'other'))
+                               for k, v in rset.resources.items()],
+            'rset.metamodel_registry': sorted(map(str, rset.metamodel_registry.maps[0])),
+            'global_registry': sorted(map(str, global_registry))}
+
+
+def _env_diff(a, b):
+    return next((f'{k}: {a[k]} -> {b[k]}' for k in a if a[k] != b[k]), None)
+
+
+def metaref_scenarios(ctx, out):
+    """Models that refer to METAMODEL ELEMENTS (an EClass, an EDataType) of a dynamic package that is in no
+    resource and registered nowhere, next to instances of that package (written with an explicit type):
+    two saves in a row write the same bytes and leave model, resource and resource set as they were."""
+    common.use_repo()
+    from pyecore.ecore import EPackage, EClass, EReference, EAttribute, EString, EDataType
+    from pyecore.resources import ResourceSet, URI
+    from pyecore.resources.json import JsonResource
+    rng = common.rng_for(ctx.seed, 'C16:metaref')
+    scratch = os.path.join(common.BUILD, 'scratch')
+    os.makedirs(scratch, exist_ok=True)
+    n = 0
+    for k in range(8 if ctx.tier == 'quick' else 40):
+        hist = {'n_entries': rng.randint(0, 3), 'special': [rng.random() < 0.6 for _ in range(3)],
+                'kind': rng.choice(['Special', 'Special', 'Entry', None]), 'dtype': rng.choice(['Code', None]),
+                'kind_first': rng.random() < 0.5, 'registered': rng.random() < 0.7, 'format': rng.choice(['xmi', 'json']),
+                'use_uuid': rng.random() < 0.3}
+        fmt = hist['format']
+        M = EPackage('catalog', nsURI='http://verif/c16/catalog', nsPrefix='cat')
+        Entry = EClass('Entry')
+        Entry.eStructuralFeatures.append(EAttribute('label', EString))
+        Catalog = EClass('Catalog')
+        feats = [EReference('kind', EClass.eClass), EReference('dtype', EDataType.eClass)]
+        cont = EReference('entries', Entry, upper=-1, containment=True)
+        Catalog.eStructuralFeatures.extend(feats + [cont] if hist['kind_first'] else [cont] + feats)
+        M.eClassifiers.extend([Entry, Catalog])
+        Q = EPackage('ext', nsURI='http://verif/c16/ext', nsPrefix='ext')     # dynamic, registered nowhere
+        Special = EClass('Special', superclass=(Entry,))
+        Code = EDataType('Code', str)
+        Q.eClassifiers.extend([Special, Code])
+        with tempfile.TemporaryDirectory(dir=scratch) as d:
+            rset = ResourceSet()
+            rset.resource_factory['json'] = lambda uri, **kw: JsonResource(uri, **kw)
+            if hist['registered']:
+                rset.metamodel_registry[M.nsURI] = M
+            path = os.path.join(d, 'catalog.' + fmt)
+            res = rset.create_resource(URI(path), use_uuid=hist['use_uuid'])
+            root = Catalog()
+            if hist['kind']:
+                root.kind = Special if hist['kind'] == 'Special' else Entry
+            if hist['dtype']:
+                root.dtype = Code
+            for i in range(hist['n_entries']):
+                root.entries.append((Special if hist['special'][i] else Entry)(label=f'e{i}'))
+            res.append(root)
+            case = {'scenario': 'metaref', 'seed': ctx.seed, 'tier': ctx.tier, 'history': hist}
+            e0 = _env(rset, [res])
+            obs0 = (root.kind, root.dtype, [(type(x).__name__, x.label) for x in root.entries])
+            outs = []
+            for _ in range(2):
+                try:
+                    res.save()
+                    outs.append(read(path))
+                except Exception as e:      # noqa: a model pyecore cannot save is not this scenario's business
+                    outs.append(('raised', type(e).__name__))
+            n += 1
+            e1 = _env(rset, [res])
+            obs1 = (root.kind, root.dtype, [(type(x).__name__, x.label) for x in root.entries])
+            if _env_diff(e0, e1) or obs0 != obs1:
+                out.fail(sig('purity', fmt, 'metamodel-reference'),
+                         'save changed ' + (_env_diff(e0, e1) or 'the model'), case)
+            if all(isinstance(o, bytes) for o in outs) and outs[0] != outs[1]:
+                out.fail(sig('idempotence', fmt, 'metamodel-reference'),
+                         'two saves in a row of a model that refers to elements of an unregistered dynamic package '
+                         'wrote different bytes: ' + _firstdiff(outs[0], outs[1]), case)
+    out.coverage['metamodel_reference_scenarios'] = n
+
+
+def export_scenarios(ctx, out):
+    """A resource lives in its own file and is exported with save(output=<URI>); an export FAILS on a planted
+    fault.  Afterwards: the export target holds the previous export, the resource still has its uri and is still
+    found under it; once the model is repaired a plain save() writes the resource's OWN file, not the export."""
+    common.use_repo()
+    rng = common.rng_for(ctx.seed, 'C16:export')
+    scratch = os.path.join(common.BUILD, 'scratch')
+    os.makedirs(scratch, exist_ok=True)
+    n = 0
+    for k in range(10 if ctx.tier == 'quick' else 60):
+        spec = gen_instance_spec(rng, 4)
+        fmt = rng.choice(['xmi', 'json'])
+        kind = rng.choice(['tostring-raises', 'tostring-nonstring', 'orphan-child', 'orphan-ref'])
+        opts = {'use_uuid': False, 'serialize_default': rng.random() < 0.3, 'target': 'output',
+                'xmi_type': False, 'indent': None}
+        with tempfile.TemporaryDirectory(dir=scratch) as d:
+            b = build(spec, d, fmt, False)
+            pos = rng.randrange(len(b.positions))
+            hist = {'spec': spec, 'format': fmt, 'kind': kind, 'position': pos, 'options': opts}
+            case = {'scenario': 'export', 'seed': ctx.seed, 'tier': ctx.tier, 'history': hist}
+            export_path = os.path.join(d, 'backup.' + fmt)
+            export = _uri(export_path)
+            if do_save(b, fmt, opts) or do_save(b, fmt, opts, export):
+                continue                    # not savable as generated: the main enumeration deals with it
+            own_v1, export_v1 = read(b.path), read(export_path)
+            env0 = _env(b.rset, b.resources)
+            undo = plant(b, spec, kind, b.positions[pos])
+            exc = do_save(b, fmt, opts, export)
+            if not exc:
+                continue
+            n += 1
+            env1 = _env(b.rset, b.resources)
+            if read(export_path) != export_v1:
+                out.fail(sig('failsafe', fmt, 'export:' + kind), f'save(output=...) raised {exc} and the previous export '
+                         'is gone', case)
+            if _env_diff(env0, env1):
+                out.fail(sig('purity', fmt, 'export:' + kind), f'save(output=...) raised {exc} and changed '
+                         + _env_diff(env0, env1), case)
+            if b.rset.resources.get(b.res.uri.normalize()) is not b.res:
+                out.fail(sig('purity', fmt, 'export:' + kind), 'after the failed export the resource set no longer finds '
+                         'the resource under its uri', case)
+            undo()
+            # the repair itself may leave a trace in the document (an attribute that is now explicitly None):
+            # the plain save is compared with what it writes the second time, and must not be the old document
+            # only when the repair changed nothing
+            if do_save(b, fmt, opts):
+                continue
+            own_v2 = read(b.path)
+            if read(export_path) != export_v1:
+                out.fail(sig('failsafe', fmt, 'export:' + kind), 'a plain save() after a failed save(output=...) wrote '
+                         'to the export target', case)
+            if own_v2 is None or (own_v2 == own_v1 and os.path.getsize(b.path) == 0):
+                out.fail(sig('failsafe', fmt, 'export:' + kind), 'a plain save() after a failed export did not write '
+                         'the resource\'s own file', case)
+            marker_old = os.stat(b.path).st_mtime_ns
+            if not do_save(b, fmt, opts) and read(b.path) != own_v2:
+                out.fail(sig('idempotence', fmt, 'export:' + kind), 'two plain saves after a failed export differ: '
+                         + _firstdiff(own_v2, read(b.path)), case)
+            del marker_old
+    out.coverage['failed_export_scenarios'] = n
+
+
+SCENARIOS = {'metaref': metaref_scenarios, 'export': export_scenarios}
+
+
 def option_grid(fmt, thorough):
     grid = []
     for uu in (False, True):
@@ -829,6 +978,10 @@ def run(ctx, out):
         if cut:
             break
     model.close()
+    pre = dict(out.coverage)
+    metaref_scenarios(ctx, out)
+    export_scenarios(ctx, out)
+    pre.update(out.coverage)
     out.coverage.update({
         'evaluations': stats['saves'],
         'distinct_nontrivial': len(stats['distinct']),
@@ -863,6 +1016,8 @@ def run(ctx, out):
 def replay(ctx, rep):
     common.use_repo()
     case = rep['case']
+    if case.get('scenario') in SCENARIOS:
+        return common.scenario_replay(ctx, rep, SCENARIOS)
     spec, fmt, opts = case['spec'], case['format'], case['options']
     scratch = os.path.join(common.BUILD, 'scratch')
     os.makedirs(scratch, exist_ok=True)
